@@ -2,7 +2,7 @@
     dictionaries + selections): the second sentence of the property in that vocabulary. *)
 From Coq Require Import List NArith Bool Arith Lia Permutation SetoidList Relations.
 From SK Require Import lib.LGraph lib.Mono lib.Reach model.C06_Model model.C06_Attrs lib.C06_Spec lib.C06_SelSpec
-  proof.C06_All proof.C06_Comps proof.C06_Main proof.C06_Attrs proof.C06_AttrsSpec proof.C06_AttrsEx.
+  proof.C06_All proof.C06_Comp proof.C06_Comps proof.C06_Main proof.C06_Attrs proof.C06_AttrsSpec proof.C06_AttrsEx.
 Import ListNotations.
 
 (** connectivity of the caller's graph: reflexive-transitive closure of "joined by an edge" *)
@@ -124,4 +124,44 @@ Proof.
     destruct (comps_cover _ G 3%N) as (c & Hc3 & Hin3); [vm_compute; auto|].
     assert (In 4%N c) by (apply (proj2 (proj2 (proj2 (comps_class _ G c Hc3))) 3%N 4%N Hin3); exact Hc).
     revert Hc3 Hin3 H. vm_compute. intros [<-|[<-|[]]]; simpl; intuition discriminate.
+Qed.
+
+(** the call with every option omitted, on the caller's graphs (threshold 5000 not binding) *)
+Theorem sel_default_call na ea (H P : rgraph) :
+  rgwf H -> rgwf P ->
+  (forall T', (5000 <= T')%N ->
+     find_sel (monos_sel na ea H P) (Cfg 1 0 T' true false) na ea H P =
+     find_sel (monos_sel na ea H P) (Cfg 1 0 5000 true false) na ea H P) ->
+  exists R, find_api (monos_sel na ea H P) SDefault None None None None (project na ea H) (project na ea P) = Result R /\
+  let hcc := length (comps (project na ea H)) in
+  let pcc := length (comps (project na ea P)) in
+  NoDupA (@Permutation (N * N)) R /\
+  if (0 <? pcc) && (pcc <? hcc) then R = []
+  else if hcc <? pcc then
+    (forall m, In m R -> is_mono_sel na ea H P m) /\
+    (forall m, is_mono_sel na ea H P m -> exists m', In m' R /\ Permutation m m')
+  else
+    (forall m, In m R -> is_mono_sel na ea H P m /\ rseparating H P m) /\
+    (forall m, is_mono_sel na ea H P m -> rseparating H P m -> exists m', In m' R /\ Permutation m m').
+Proof.
+  intros HH HP Hnb.
+  exists (find_sel (monos_sel na ea H P) (Cfg 1 0 5000 true false) na ea H P). split; [reflexivity|].
+  destruct (sel_comp_spec na ea true H P HH HP) as (T0 & HT0). cbv zeta.
+  specialize (HT0 (N.max 5000 T0) ltac:(lia)). cbv zeta in HT0.
+  rewrite (Hnb (N.max 5000 T0)) in HT0 by lia. rewrite andb_true_r in HT0. exact HT0.
+Qed.
+
+(** non-vacuity of [sel_default_call]: its premises hold for the pair of proof/C06_AttrsEx.v (the default call
+    returns [] there: the host has two components, the pattern one, strict_cc_count is on by default) *)
+Example ex_sel_default_call :
+  exists R, find_api (monos_sel [1%N; 2%N] [] Hr Pr) SDefault None None None None (project [1%N; 2%N] [] Hr) (project [1%N; 2%N] [] Pr) = Result R /\ R = [].
+Proof.
+  destruct (sel_default_call [1%N; 2%N] [] Hr Pr Hr_wf Pr_wf) as (R & HR & _ & Hcase).
+  - intros T' HT. unfold find_sel.
+    rewrite !(find_comp_unlimited (monos_sel [1%N; 2%N] [] Hr Pr)); [reflexivity| |];
+      (eapply N.le_trans; [|try exact HT; apply N.le_refl]); vm_compute; discriminate.
+  - exists R. split; [exact HR|].
+    assert (E : (0 <? length (comps (project [1%N; 2%N] [] Pr))) && (length (comps (project [1%N; 2%N] [] Pr)) <? length (comps (project [1%N; 2%N] [] Hr))) = true)
+      by (vm_compute; reflexivity).
+    rewrite E in Hcase. exact Hcase.
 Qed.
